@@ -1,17 +1,7 @@
 //! bumpmc — bounded-exhaustive explorer for bumpalo (see /verif/DESIGN.md).
 
-pub mod arena;
-pub mod boxmodel;
-pub mod coll;
-pub mod decoders;
-pub mod env;
-pub mod grid;
-pub mod overflow;
-pub mod pair;
-pub mod journal;
-pub mod mc;
-pub mod util;
 
+use bumpmc::*;
 use std::collections::{HashMap, HashSet};
 
 fn arg_map(args: &[String]) -> HashMap<String, String> {
@@ -123,6 +113,7 @@ fn run_generic<M: mc::Model>(model: &M, replay: bool, a: &HashMap<String, String
         max_violations: 40,
         skip: load_skip(a.get("skip")),
         max_states_per_level: a.get("max-level").map(|s| s.parse().unwrap()).unwrap_or(3_000_000),
+                keep_keys: false,
     };
     let rep = mc::explore(model, &p);
     let j = report_json(&rep, extra);
@@ -164,6 +155,7 @@ fn main() {
                 max_violations: 40,
                 skip: load_skip(a.get("skip")),
                 max_states_per_level: a.get("max-level").map(|s| s.parse().unwrap()).unwrap_or(3_000_000),
+                keep_keys: false,
             };
             let rep = mc::explore(&model, &p);
             let j = report_json(&rep, serde_json::json!({"engine": "arena", "profile": format!("{:?}", profile), "thorough": thorough, "max_depth": depth, "max_devs": p.max_devs, "threads": threads}));
@@ -220,6 +212,7 @@ fn main() {
                 max_violations: 40,
                 skip: load_skip(a.get("skip")),
                 max_states_per_level: usize::MAX,
+                keep_keys: false,
             };
             let rep = mc::explore(&model, &p);
             let inputs = grid::INPUTS.load(std::sync::atomic::Ordering::Relaxed);
@@ -266,6 +259,7 @@ fn main() {
                 max_violations: 40,
                 skip: load_skip(a.get("skip")),
                 max_states_per_level: a.get("max-level").map(|s| s.parse().unwrap()).unwrap_or(3_000_000),
+                keep_keys: false,
             };
             let rep = mc::explore(&model, &p);
             let j = report_json(&rep, serde_json::json!({"engine": "pair", "max_devs": p.max_devs, "thorough": thorough, "max_depth": depth, "threads": threads}));
